@@ -1,7 +1,7 @@
 """C01 — end-to-end at-least-once through Router pipelines under faults."""
 from . import common as C
 
-HEADER = 'From WM Require Import Base.Prelude Message.Model Handler.RouterHandle Pipeline.Model Pipeline.ImmModel Pipeline.CtxModel Corr.C01.\n'
+HEADER = 'From WM Require Import Base.Prelude Message.Model Handler.RouterHandle Pipeline.Model Pipeline.ImmModel Pipeline.CtxModel Corr.C01.\nFrom WM Require Router.Wiring.\n'
 ST = ['Unsettled', 'Acked', 'Nacked']
 FK = ['none', 'handler error', 'handler panic', 'publish error after j', 'publish panic after j']
 
@@ -63,8 +63,18 @@ def case_term(c):
         while len(row) < d['call']: row.append(True)
         row.append(bool(d.get('ctx_live', True)))
     ctxt = C.coq_list([C.coq_list([C.coq_bool(b) for b in row]) for row in ctx])
-    return '(C01 %d %s %s %s %s %s %s %s)' % (c['k'], fans, scr, srcs, C.coq_list([delivery_term(d) for d in c['log']]),
-                                              C.coq_list([cm(m) for m in c['sink']]), C.coq_bool(c['quiet']), ctxt)
+    names = {'': 0}
+    def nid(n):
+        if n not in names: names[n] = len(names)
+        return names[n]
+    def regs_term(ri):
+        regs = (c.get('regs') or [])
+        row = regs[ri] if ri < len(regs) else []
+        return C.coq_list(['(Wiring.MR %s %s %s None)' % (C.coq_bool(r['router_level']), C.coq_N(nid(r['hname'])), C.coq_N(r['id'])) for r in row])
+    mws = C.coq_list(['(%s, %s, %s)' % (regs_term(d.get('router', 0)), C.coq_N(nid(d.get('hname', ''))), C.coq_list([C.coq_N(i) for i in (d.get('mws') or [])]))
+                      for d in c['log']])
+    return '(C01 %d %s %s %s %s %s %s %s %s)' % (c['k'], fans, scr, srcs, C.coq_list([delivery_term(d) for d in c['log']]),
+                                                 C.coq_list([cm(m) for m in c['sink']]), C.coq_bool(c['quiet']), ctxt, mws)
 
 
 def config(c):
@@ -81,7 +91,7 @@ def describe(c, full=False):
              deliveries=len(c['log']))
     log = c['log'] if full else c['log'][:12]
     d['log'] = [dict(stage=x['stage'], call=x['call'], msg=(x['msg']['lin'], x['msg']['path']), fault=[FK[x['fault']['kind']], x['fault']['j']],
-                     context_live_at_entry=x.get('ctx_live', True), events=x['events'], accepted_by_next_topic=[(m['lin'], m['path']) for m in x['fwd']], final=ST[x['final']]) for x in log]
+                     context_live_at_entry=x.get('ctx_live', True), handler=x.get('hname'), middlewares_entered=x.get('mws'), events=x['events'], accepted_by_next_topic=[(m['lin'], m['path']) for m in x['fwd']], final=ST[x['final']]) for x in log]
     return d
 
 
@@ -111,6 +121,7 @@ def evaluate(pid, tag, data, res):
         res.count('kind=%s' % c['kind'])
         res.count('gochannel=%s%s buffer=%s' % ('persistent' if c['persistent'] else 'plain', '+blocking' if c['blocking'] else '', '0' if c['buffer'] == 0 else 'n'))
         res.count('routers=%s' % ('one' if c['one_router'] else 'k'))
+        if c.get('bystanders'): res.count('with bystander handlers on the Router (empty name%s), own error-swallowing / instant-ack middlewares, registered %s the stages' % (' + a named one' if c['bystanders'] > 1 else '', 'before' if c.get('by_first') else 'after'))
         if c.get('late_on_closed'): res.count('source publishes on the live topic-0 Pub/Sub after its Close (messages in flight downstream)', c['late_on_closed'])
         if c.get('bystander', -1) >= 0 and not c['blocking']: res.count('with a bystander subscription on a pipeline topic (nacks once, cancels itself mid-run); it received %s' % ('0' if not c.get('bystander_got') else '1+'))
         if any(9 in row for row in c['fans']): res.count('with a passthrough handler (returns the consumed object)')
@@ -138,7 +149,7 @@ def evaluate(pid, tag, data, res):
         r = C.coq_eval(pid, 'cases_%s_%d' % (tag, part), HEADER + 'Definition cases : list c01_case := %s.\n' % C.coq_list([case_term(c) for c in chunk]),
                        [('R_mis', 'c01_mismatches cases'), ('R_log', 'c01_log_violations cases'),
                         ('R_inv', 'c01_invented_violations cases'), ('R_lost', 'c01_lost_violations cases'),
-                        ('R_red', 'c01_redelivery_violations cases'), ('R_imm', 'c01_immediate_violations cases'), ('R_ctx', 'c01_dead_ctx_violations cases')])
+                        ('R_red', 'c01_redelivery_violations cases'), ('R_imm', 'c01_immediate_violations cases'), ('R_ctx', 'c01_dead_ctx_violations cases'), ('R_mw', 'c01_foreign_mw_violations cases')])
         vio = set()
         for i in r['R_log']:
             vio.add(i)
@@ -148,6 +159,9 @@ def evaluate(pid, tag, data, res):
         for i in r['R_inv']:
             vio.add(i)
             res.violations.append(dict(signature='C01/invented', what='a message arrived at the final topic that does not descend from a successfully published source message (lineage/path not derivable)', case=describe(chunk[i], True)))
+        for i in r['R_mw']:
+            vio.add(i)
+            res.violations.append(dict(signature='C01/foreign-middleware', what='a stage\'s call ran a middleware that is neither router-level nor the stage\'s own (or not in registration order): another handler\'s error-swallowing / instant-ack middleware decides about the stage\'s message', case=describe(chunk[i], True)))
         for i in r['R_ctx']:
             vio.add(i)
             res.violations.append(dict(signature='C01/dead-delivery-context', what='a copy was delivered with an already-done context (GoChannel must hand out every copy, redeliveries included, with a live context); the context-aware handler fails on it, so the fault never stops and the message does not move on', case=describe(chunk[i], True)))
